@@ -207,6 +207,25 @@ class Rx:
         return [(m.start(), len(m.group(1))) for m in self.re.finditer(b)]
 
 
+def yr_isalnum(x):
+    return 0x30 <= x <= 0x39 or 0x41 <= x <= 0x5A or 0x61 <= x <= 0x7A
+
+
+class Fullword:
+    """`"text" fullword` / `/re/ fullword` (non-wide): an occurrence counts only if the bytes just before and just after it — INSIDE the
+    scanned block; the block's ends are delimiters — are not alphanumeric"""
+
+    def __init__(self, inner):
+        self.inner = inner            # bytes (printable, no quotes) or Rx
+
+    def findall(self, b):
+        return [(o, ln) for o, ln in str_findall(self.inner, b)
+                if not (o >= 1 and yr_isalnum(b[o - 1])) and not (o + ln < len(b) and yr_isalnum(b[o + ln]))]
+
+    def src(self):
+        return ('"%s"' % self.inner.decode() if isinstance(self.inner, (bytes, bytearray)) else "/%s/" % self.inner.src) + " fullword"
+
+
 class HexJump(Rx):
     """hex string with a small jump, e.g. { 41 42 [0-4] 43 44 }: verified by yr_re_fast_exec, which keeps its candidate positions in
     nodes recycled through the scanner's position pool; the shortest match at every start offset is reported"""
@@ -271,6 +290,8 @@ def str_src(s):
         return s.src()
     if isinstance(s, HexJump):
         return s.hexsrc
+    if isinstance(s, Fullword):
+        return s.src()
     if isinstance(s, (bytes, bytearray)):
         return "{ %s }" % " ".join("%02x" % x for x in s)
     return "/%s/" % s.src
